@@ -4,6 +4,7 @@ import (
 	"encoding/hex"
 	"fmt"
 	"math/rand/v2"
+	"net"
 	"sort"
 	"time"
 
@@ -35,7 +36,7 @@ func genC04(seed uint64, tier string) *plan.Plan {
 	r := rand.New(rand.NewPCG(seed, 0xc04))
 	pl := &plan.Plan{Cfg: map[string]int64{}}
 	pl.Cfg["mode"] = int64(r.IntN(3))
-	pl.Cfg["path"] = int64(r.IntN(2))
+	pl.Cfg["path"] = int64([]int{0, 1, 0, 1, 3}[r.IntN(5)])
 	if r.IntN(5) == 0 {
 		genC04Concurrent(r, pl)
 		return pl
@@ -165,19 +166,32 @@ func runC04(pl *plan.Plan, out *plan.Outcome) {
 	env := newEnv(pl, out, keepLogFlag)
 	mode := int(cfgOr(pl, "mode", 0))
 	tcp := cfgOr(pl, "path", 0) == 1
+	// path 3: the real UDP server with a receive buffer that the longest message of the plan fits
+	// exactly (a datagram that fills the buffer is a complete datagram)
+	udpReal := cfgOr(pl, "path", 0) == 3
 	addr := "10.0.0.1:4739"
 	proto := "udp"
 	if tcp {
 		proto = "tcp"
 	}
-	cp, err := collector.InitCollectingProcess(collector.CollectorInput{Address: addr, Protocol: proto, MaxBufferSize: 65535, DecodingMode: modeNames[mode], TemplateTTL: 86400})
+	maxBuf := 65535
+	if udpReal {
+		maxBuf = 16
+		for _, op := range pl.Ops {
+			if op.K == "msg" && len(op.X)/2 > maxBuf {
+				maxBuf = len(op.X) / 2
+			}
+		}
+		out.Add("c04.udp_buffer_fits_longest_message_exactly", 1)
+	}
+	cp, err := collector.InitCollectingProcess(collector.CollectorInput{Address: addr, Protocol: proto, MaxBufferSize: uint16(maxBuf), DecodingMode: modeNames[mode], TemplateTTL: 86400})
 	if err != nil {
 		out.Trouble = err.Error()
 		return
 	}
 	model := newColModel(mode)
 	var got []dMsg
-	if tcp {
+	if tcp || udpReal {
 		env.Go("collector", func() { cp.Start() })
 	}
 	env.Go("consumer", func() {
@@ -196,6 +210,7 @@ func runC04(pl *plan.Plan, out *plan.Outcome) {
 	env.Go("driver", func() {
 		env.Sleep(time.Millisecond)
 		conns := map[int]*simnet.Conn{}
+		uconns := map[int]*simnet.UDPConn{}
 		dead := map[int]bool{}
 		for i, op := range pl.Ops {
 			if op.K != "msg" {
@@ -239,6 +254,25 @@ func runC04(pl *plan.Plan, out *plan.Outcome) {
 					derr = fmt.Errorf("no delivery")
 					dead[op.T] = true
 				}
+			} else if udpReal {
+				if len(b) == 0 {
+					continue
+				}
+				c := uconns[op.T]
+				if c == nil {
+					var err error
+					c, err = env.Net.DialUDP(&net.UDPAddr{IP: net.ParseIP("10.0.0.1"), Port: 4739})
+					if err != nil {
+						out.Trouble = "dial: " + err.Error()
+						return
+					}
+					uconns[op.T] = c
+				}
+				Block("send", func() { c.Write(b) })
+				env.Sleep(time.Second)
+				if len(got) == n0 {
+					derr = fmt.Errorf("no delivery")
+				}
 			} else {
 				Block("decode", func() { _, derr = cp.VerifDecodePacket(b, fmt.Sprintf("10.0.1.%d:999", op.T+1)) })
 				env.Sleep(time.Millisecond)
@@ -265,7 +299,10 @@ func runC04(pl *plan.Plan, out *plan.Outcome) {
 		for _, c := range conns {
 			c.Close()
 		}
-		if tcp {
+		for _, c := range uconns {
+			c.Close()
+		}
+		if tcp || udpReal {
 			Block("stop", func() { cp.Stop() })
 		}
 		cp.CloseMsgChan()
